@@ -70,6 +70,34 @@ static void item_arc (long it, void *arg)
 	vf_stat_add (st_trans, (long) steps * NMAXV);
 }
 
+/* every maxv the library can ever pass (it draws row and column indices: maxv <= N1*k <= 255*50000, in practice far
+ * below 2^20) on a band of states: item = block of 4096 maxv values; states = the first 2048 of the cycle from seed 1,
+ * the last 2048 before it closes, and 2^31-2, 2^30, 2^30+1 */
+#define BAND 4099
+static uint64_t band[BAND];
+static void item_band (long it, void *arg)
+{
+	uint64_t mv, lo = (uint64_t) it * 4096 + 1, hi = lo + 4096;
+	int i;
+	(void) arg;
+	vf_slot_set_prop ("C19");
+	snprintf (vf_slot (), VF_SLOT_LEN, "band maxv=%llu..%llu", (unsigned long long) lo, (unsigned long long) hi - 1);
+	for (mv = lo; mv < hi; mv++) {
+		for (i = 0; i < BAND; i++) {
+			uint64_t s = band[i], want = (s * (uint64_t) 16807) % M31, v, rfc;
+			of_seed = s;
+			v = of_rfc5170_rand (mv);
+			rfc = (uint64_t) ((double) want * (double) mv / (double) 0x7FFFFFFF);
+			if (of_seed != want) { bad ("wrong-next-state", s, mv, of_seed, want); return; }
+			if (v != rfc) { bad ("value-differs-from-rfc-expression", s, mv, v, rfc); return; }
+			if (v >= mv) { bad ("value-out-of-range", s, mv, v, mv - 1); return; }
+			if (v != (uint64_t) (((unsigned __int128) want * mv) / M31)) { bad ("value-differs-from-exact-floor", s, mv, v, (uint64_t) (((unsigned __int128) want * mv) / M31)); return; }
+		}
+		if ((mv & 255) == 0) vf_heartbeat ();
+	}
+	vf_stat_add (st_trans, (long) 4096 * BAND);
+}
+
 /* seeding windows: item = window index */
 static const struct { uint64_t lo, hi; uint64_t stride; } WIN[] = {
 	{0, 1 << 16, 1}, {M31 - 1 - (1 << 16), M31 + (1 << 16), 1}, {((uint64_t) 1 << 32) - (1 << 16), ((uint64_t) 1 << 32) + (1 << 16), 1},
@@ -137,6 +165,16 @@ int main (int argc, char **argv)
 	vf_note ("maxv list (%d values): first %llu last %llu", NMAXV, (unsigned long long) MAXV[0], (unsigned long long) MAXV[NMAXV - 1]);
 	vf_pool_run (NARCS, item_arc, NULL, 0);
 	vf_pool_run ((long) (sizeof WIN / sizeof WIN[0]), item_seed, NULL, 0);
+	{	/* maxv 1 .. 2^20 (thorough 2^22: s'*maxv < 2^53 holds for all of them, so the exact floor is demanded too) */
+		uint64_t s = 1; int i; long nblk = thorough ? 1024 : 256;
+		for (i = 0; i < 2048; i++) { band[i] = s; s = (s * 16807) % M31; }
+		s = modpow (16807, TOTAL - 2048);
+		for (i = 0; i < 2048; i++) { band[2048 + i] = s; s = (s * 16807) % M31; }
+		band[4096] = M31 - 1; band[4097] = (uint64_t) 1 << 30; band[4098] = ((uint64_t) 1 << 30) + 1;
+		if (s != 1) bad ("reference-cycle", 0, 0, s, 1);
+		vf_pool_run (nblk, item_band, NULL, 0);
+		vf_outcome ("band_maxv_values", nblk * 4096); vf_outcome ("band_states", BAND);
+	}
 	vf_stat_add (st_exec, vf_stat_get (st_trans));
 	vf_stat_add (st_dn, vf_stat_get (st_states));
 	vf_outcome ("states_visited", vf_stat_get (st_states));
